@@ -16,21 +16,24 @@
 
 package server
 
-import "sync/atomic"
+import "sync"
 
-// VerifYieldHook, when set, is called at the named yield points of the server package.
-var verifYieldHook atomic.Pointer[func(point string)]
+// Yield hooks, keyed by the controller they were registered for (several controllers can be
+// driven concurrently by the harness).
+var verifYieldHooks sync.Map
 
-func SetVerifYieldHook(f func(point string)) {
+// SetVerifYieldHook registers (or, with a nil function, removes) the hook called at the named yield
+// points reached on behalf of the given controller.
+func SetVerifYieldHook(subject any, f func(point string)) {
 	if f == nil {
-		verifYieldHook.Store(nil)
+		verifYieldHooks.Delete(subject)
 		return
 	}
-	verifYieldHook.Store(&f)
+	verifYieldHooks.Store(subject, f)
 }
 
-func verifYield(point string) {
-	if f := verifYieldHook.Load(); f != nil {
-		(*f)(point)
+func verifYield(point string, subject any) {
+	if f, ok := verifYieldHooks.Load(subject); ok {
+		f.(func(string))(point)
 	}
 }
